@@ -19,22 +19,22 @@ def recorded (w : World) (i : Nat) : Nat := w.feedback.count i + w.ignored.count
 
 theorem failWith_id (o : FbObj) (e : Exc) : (failWith o e).id = o.id := rfl
 
-theorem evalHandle_id (O : Oracle) (avail : List String) (o : FbObj) : (evalHandle O avail o).id = o.id := by
+theorem evalHandle_id (O : Oracle) (F : String) (avail : List String) (o : FbObj) : (evalHandle O F avail o).id = o.id := by
   unfold evalHandle
   dsimp only
   repeat' split
   all_goals rfl
 
-theorem evalHandle_parent (O : Oracle) (avail : List String) (o : FbObj) :
-    (evalHandle O avail o).parent = o.parent := by
+theorem evalHandle_parent (O : Oracle) (F : String) (avail : List String) (o : FbObj) :
+    (evalHandle O F avail o).parent = o.parent := by
   unfold evalHandle
   dsimp only
   repeat' split
   all_goals rfl
 
 /-- What `_handle_condition` leaves behind is one of exactly three shapes. -/
-theorem evalHandle_cases (O : Oracle) (avail : List String) (o : FbObj) :
-    let r := evalHandle O avail o
+theorem evalHandle_cases (O : Oracle) (F : String) (avail : List String) (o : FbObj) :
+    let r := evalHandle O F avail o
     (r.met = true ∧ r.status = .active ∧ r.exc = none ∧ evalCond o = .ok true) ∨
     (r.met = false ∧ r.status = .inactive ∧ r.exc = none ∧ evalCond o = .ok false) ∨
     (r.met = false ∧ r.status = .error ∧ ∃ e, r.exc = some e) := by
@@ -69,14 +69,14 @@ theorem record_lists (w : World) (o : FbObj) :
 theorem handle_recorded (O : Oracle) (w : World) (o : FbObj) (i : Nat) :
     recorded (handle O w o).1 i = recorded w i + (if i = o.id then 1 else 0) := by
   unfold handle recorded
-  obtain ⟨hf, hi, _⟩ := record_lists w (evalHandle O w.avail o)
+  obtain ⟨hf, hi, _⟩ := record_lists w (evalHandle O w.fmtId w.avail o)
   dsimp only
   rw [hf, hi, evalHandle_id]
   by_cases h : i = o.id
   · subst h
-    cases (evalHandle O w.avail o).met <;> simp [List.count_append] <;> omega
+    cases (evalHandle O w.fmtId w.avail o).met <;> simp [List.count_append] <;> omega
   · have h' : ¬ (o.id = i) := fun e => h e.symm
-    cases (evalHandle O w.avail o).met <;> simp [List.count_append, h, h']
+    cases (evalHandle O w.fmtId w.avail o).met <;> simp [List.count_append, h, h']
 
 theorem initObj_id (w : World) (sp : FbSpec) : (initObj w sp).id = w.nextId := rfl
 
@@ -125,19 +125,19 @@ theorem construct_ok (O : Oracle) (w : World) (sp : FbSpec) (hw : WorldOk w) : W
   split
   · intro i hi; exact Nat.lt_succ_of_lt (hw i hi)
   · intro i hi
-    obtain ⟨hf, hg, hn⟩ := record_lists { w with nextId := w.nextId + 1 } (evalHandle O w.avail (initObj w sp))
+    obtain ⟨hf, hg, hn⟩ := record_lists { w with nextId := w.nextId + 1 } (evalHandle O w.fmtId w.avail (initObj w sp))
     unfold handle at hi ⊢
     dsimp only at hi ⊢
     rw [hn]
     rw [hf, hg, evalHandle_id] at hi
     show i < w.nextId + 1
-    by_cases hm : (evalHandle O w.avail (initObj w sp)).met = true
+    by_cases hm : (evalHandle O w.fmtId w.avail (initObj w sp)).met = true
     · simp only [hm, if_true, List.mem_append, List.mem_singleton, initObj_id] at hi
       rcases hi with (hi | hi) | hi
       · exact Nat.lt_succ_of_lt (hw i (Or.inl hi))
       · omega
       · exact Nat.lt_succ_of_lt (hw i (Or.inr hi))
-    · have hm' : (evalHandle O w.avail (initObj w sp)).met = false := by simpa using hm
+    · have hm' : (evalHandle O w.fmtId w.avail (initObj w sp)).met = false := by simpa using hm
       simp only [hm', Bool.false_eq_true, if_false, List.mem_append, List.mem_singleton, initObj_id] at hi
       rcases hi with hi | hi | hi
       · exact Nat.lt_succ_of_lt (hw i (Or.inl hi))
@@ -192,11 +192,11 @@ theorem c20_right_list_iff_condition (O : Oracle) (w : World) (sp : FbSpec) (hw 
   simp only [hd, Bool.false_eq_true, if_false]
   unfold handle
   dsimp only
-  obtain ⟨hf, hg, _⟩ := record_lists { w with nextId := w.nextId + 1 } (evalHandle O w.avail (initObj w sp))
+  obtain ⟨hf, hg, _⟩ := record_lists { w with nextId := w.nextId + 1 } (evalHandle O w.fmtId w.avail (initObj w sp))
   rw [hf, hg, evalHandle_id, initObj_id]
   have h1 : w.nextId ∉ w.feedback := fun hm => Nat.lt_irrefl _ (hw _ (Or.inl hm))
   have h2 : w.nextId ∉ w.ignored := fun hm => Nat.lt_irrefl _ (hw _ (Or.inr hm))
-  cases (evalHandle O w.avail (initObj w sp)).met <;> simp [h1, h2]
+  cases (evalHandle O w.fmtId w.avail (initObj w sp)).met <;> simp [h1, h2]
 
 /-- `evalCond` on the freshly initialised object is the condition outcome of the call. -/
 theorem evalCond_init (w : World) (sp : FbSpec) :
@@ -217,7 +217,7 @@ theorem c20_bool_is_outcome (O : Oracle) (w : World) (sp : FbSpec) (hd : sp.dela
   unfold handle
   dsimp only
   have hc := evalCond_init w sp
-  rcases evalHandle_cases O w.avail (initObj w sp) with ⟨hm, _, he, hcond⟩ | ⟨hm, _, he, hcond⟩ | ⟨hm, _, e, he⟩
+  rcases evalHandle_cases O w.fmtId w.avail (initObj w sp) with ⟨hm, _, he, hcond⟩ | ⟨hm, _, he, hcond⟩ | ⟨hm, _, e, he⟩
   · rw [hm, he]
     rw [hcond] at hc
     have : condHeld sp = true := by
@@ -247,7 +247,7 @@ theorem c20_error_path (O : Oracle) (w : World) (sp : FbSpec) (hw : WorldOk w) (
   unfold handle
   dsimp only
   intro hl
-  rcases evalHandle_cases O w.avail (initObj w sp) with ⟨hm, hs, he, _⟩ | ⟨hm, hs, he, _⟩ | ⟨hm, hs, e, he⟩
+  rcases evalHandle_cases O w.fmtId w.avail (initObj w sp) with ⟨hm, hs, he, _⟩ | ⟨hm, hs, he, _⟩ | ⟨hm, hs, e, he⟩
   · refine ⟨fun e h => (by rw [he] at h; cases h), fun _ => Or.inl ⟨hs, hm⟩⟩
   · refine ⟨fun e h => (by rw [he] at h; cases h), fun _ => Or.inr ⟨hs, hm⟩⟩
   · refine ⟨fun e' h => ⟨hs, hm, h, hl.2.mpr hm, fun hf => ?_⟩, fun h => (by rw [he] at h; cases h)⟩
@@ -285,7 +285,7 @@ theorem c20_message_raises (O : Oracle) (w : World) (sp : FbSpec) (hd : sp.delay
     · unfold condHeld at hheld; rw [hs] at hheld; cases hheld
   rw [hc]
   dsimp only
-  have hjust : ∃ j, getJustification O w.avail { initObj w sp with exc := none, met := true } true = .ok j := by
+  have hjust : ∃ j, getJustification O w.fmtId w.avail { initObj w sp with exc := none, met := true } true = .ok j := by
     unfold getJustification
     dsimp only
     cases hjj : (initObj w sp).justification with
@@ -297,7 +297,7 @@ theorem c20_message_raises (O : Oracle) (w : World) (sp : FbSpec) (hd : sp.delay
   obtain ⟨j, hj'⟩ := hjust
   rw [hj']
   dsimp only
-  have : getMessage O w.avail { initObj w sp with exc := none, met := true, justification := j } = .error e := by
+  have : getMessage O w.fmtId w.avail { initObj w sp with exc := none, met := true, justification := j } = .error e := by
     unfold getMessage
     show (match sp.msg with | .default => _ | .returns m => _ | .raises e => _) = _
     rw [hm]
@@ -310,16 +310,16 @@ theorem c20_message_raises (O : Oracle) (w : World) (sp : FbSpec) (hd : sp.delay
 theorem defaultFeedbackMessage_isSome : defaultFeedbackMessage.isSome = true := by decide
 
 /-- `getMessage` only reads these attributes. -/
-theorem getMessage_congr (O : Oracle) (avail : List String) (o o' : FbObj)
+theorem getMessage_congr (O : Oracle) (F : String) (avail : List String) (o o' : FbObj)
     (h1 : o'.message = o.message) (h2 : o'.messageTemplate = o.messageTemplate) (h3 : o'.fields = o.fields)
-    (h4 : o'.msg = o.msg) : getMessage O avail o' = getMessage O avail o := by
+    (h4 : o'.msg = o.msg) : getMessage O F avail o' = getMessage O F avail o := by
   unfold getMessage defaultMessage
   rw [h1, h2, h3, h4]
 
 /-- What the message of a triggered feedback is, in terms of the object `__init__` set up. -/
 theorem triggered_message (O : Oracle) (w : World) (sp : FbSpec) (hd : sp.delay = false)
     (hmet : (construct O w sp).2.obj.met = true) :
-    getMessage O w.avail (initObj w sp) = .ok (construct O w sp).2.obj.message := by
+    getMessage O w.fmtId w.avail (initObj w sp) = .ok (construct O w sp).2.obj.message := by
   revert hmet
   unfold construct
   simp only [hd, Bool.false_eq_true, if_false]
@@ -339,7 +339,7 @@ theorem triggered_message (O : Oracle) (w : World) (sp : FbSpec) (hd : sp.delay 
         · intro h; cases h
       | true =>
         simp only [if_true]
-        have hcg := getMessage_congr O w.avail (initObj w sp)
+        have hcg := getMessage_congr O w.fmtId w.avail (initObj w sp)
           { initObj w sp with exc := none, met := true, justification := j } rfl rfl rfl rfl
         rw [hcg]
         split
@@ -382,7 +382,7 @@ theorem c20_message_derivation (O : Oracle) (w : World) (sp : FbSpec) (hd : sp.d
     let template := sp.messageTemplate <|> classTmpl w.store sp.cls "message_template"
     (∀ m, explicit = some m → (construct O w sp).2.obj.message = some m) ∧
     (explicit = none → ∀ t, template = some t →
-        render O w.avail (initObj w sp).fields t = .ok (((construct O w sp).2.obj.message).getD "") ∧
+        render O w.fmtId w.avail (initObj w sp).fields t = .ok (((construct O w sp).2.obj.message).getD "") ∧
         (construct O w sp).2.obj.message.isSome = true) ∧
     (explicit = none → template = none → (construct O w sp).2.obj.message = defaultFeedbackMessage) := by
   have h := triggered_message O w sp hd hmet
@@ -411,7 +411,7 @@ theorem c20_message_derivation (O : Oracle) (w : World) (sp : FbSpec) (hd : sp.d
 theorem c20_untriggered_message (O : Oracle) (w : World) (sp : FbSpec) (hd : sp.delay = false)
     (hraise : (construct O w sp).2.raised = none) (hmet : (construct O w sp).2.obj.met = false) :
     (construct O w sp).2.obj.message = (construct O w sp).2.obj.elseMessage ∧
-    getElseMessage O w.avail (initObj w sp) = .ok (construct O w sp).2.obj.elseMessage := by
+    getElseMessage O w.fmtId w.avail (initObj w sp) = .ok (construct O w sp).2.obj.elseMessage := by
   revert hraise hmet
   unfold construct
   simp only [hd, Bool.false_eq_true, if_false]
@@ -499,9 +499,9 @@ theorem c20_format_dispatch_longest (spec n rest : String) (h : dispatch availab
       find_longest spec available available_noEarlierSuffix m hf⟩
 
 /-- no listed formatter matches ⇒ the value is formatted plainly with the whole spec -/
-theorem c20_format_plain (O : Oracle) (spec : String) (v : FVal) (acc : String)
+theorem c20_format_plain (O : Oracle) (F : String) (spec : String) (v : FVal) (acc : String)
     (h : ∀ f ∈ available, endsWith spec f = false) :
-    renderField O available v acc "" spec = O (.plain v acc spec) := by
+    renderField O F available v acc "" spec = O (.plain v acc spec) := by
   unfold renderField dispatch
   have : available.find? (fun n => endsWith spec n) = none := by
     apply List.find?_eq_none.mpr
@@ -509,9 +509,9 @@ theorem c20_format_plain (O : Oracle) (spec : String) (v : FVal) (acc : String)
   simp [this]
 
 /-- a matching spec calls exactly the selected formatter method on the field's value -/
-theorem c20_format_applies (O : Oracle) (avail : List String) (spec n rest : String) (v : FVal) (acc : String)
+theorem c20_format_applies (O : Oracle) (F : String) (avail : List String) (spec n rest : String) (v : FVal) (acc : String)
     (h : dispatch avail spec = some (n, rest)) :
-    renderField O avail v acc "" spec = O (.fmt n v acc rest) := by
+    renderField O F avail v acc "" spec = O (.fmt F n v acc rest) := by
   unfold renderField
   simp [h]
 
@@ -551,7 +551,7 @@ example : let s := exStore.runAll [.override "A" [("title", .str "X")], .overrid
     s.clear.lookup "A" "title" = some (.str "T") ∧ s.clear.lookup "B" "title" = some (.str "T") := by decide
 
 def exWorld : World :=
-  { store := exStore, avail := available, feedback := [], ignored := [], groups := [], childLog := [], nextId := 0 }
+  { store := exStore, fmtId := "default", avail := available, feedback := [], ignored := [], groups := [], childLog := [], nextId := 0 }
 
 def exOracle : Oracle := fun _ => .ok "v"
 def keyError : Exc := ⟨"KeyError"⟩
